@@ -46,11 +46,11 @@ def run_driver(work, test, outname, env=None, timeout=900, pkg="./internal/"):
     return out
 
 
-def validate(work, trace, tag, module="StoreTrace", cfg="StoreTrace.cfg", timeout=2400):
+def validate(work, trace, tag, module="StoreTrace", cfg="StoreTrace.cfg", timeout=2400, extra_files=None):
     res = work.path("result_%s.json" % tag)
     r = vlib.run_tlc(work, module, cfg, workers=1, tag="trace_" + tag,
                      env={"VERIF_TRACE": trace, "VERIF_RESULT": res}, timeout=timeout,
-                     java_opts=["-Xss256m"])
+                     java_opts=["-Xss256m"], extra_files=extra_files)
     if r.error or not os.path.exists(res):
         raise vlib.MachineryError("trace validation (%s) failed: %s" % (tag, r.error or r.out[-1500:]))
     out = json.load(open(res))
